@@ -1,9 +1,111 @@
 (* PagelogProofs.v — lemmas and proofs for C33 (error-page macro expansion) and C34 (access-log quoting). *)
-Require Import SquidV.Bytes SquidV.TokModel SquidV.QuoteModel SquidV.QuoteProofs SquidV.PagelogModel.
+Require Import SquidV.Bytes SquidV.QuoteModel SquidV.PagelogModel.
 Require Import SquidV.gen.ByteMaps_gen SquidV.gen.ErrMacros_gen SquidV.gen.LogQuote_gen.
 Require Import ZifyBool ZifyN ZifyNat.
 Ltac Zify.zify_post_hook ::= Z.div_mod_to_equations.
 Local Open Scope N_scope.
+
+(* ====================================================================== *)
+(* Basic facts about C strings, per-byte table maps and the items of HTML-quoted text.  These are the C32 notions
+   (same statements as in QuoteProofs.v); they are restated here so that this development depends only on the
+   definitions of QuoteModel.v and on the regenerated tables, not on the proofs of other properties. *)
+Definition bytes_ok (s : bytes) : Prop := Forall (fun c => c < 256) s.
+Definition nul_free (s : bytes) : Prop := Forall (fun c => c <> 0) s.
+
+Lemma cstr_nul_free s : nul_free s -> cstr s = s.
+Proof.
+  induction 1 as [|c s Hc Hs IH]; cbn [cstr]; [reflexivity|].
+  destruct (c =? 0) eqn:E; [apply N.eqb_eq in E; contradiction|]. now rewrite IH.
+Qed.
+
+Lemma cstr_is_nul_free s : nul_free (cstr s).
+Proof.
+  induction s as [|c s IH]; cbn [cstr]; [constructor|].
+  destruct (c =? 0) eqn:E; [constructor|]. constructor; [apply N.eqb_neq in E; exact E|exact IH].
+Qed.
+
+Lemma cstr_bytes_ok s : bytes_ok s -> bytes_ok (cstr s).
+Proof.
+  induction 1 as [|c s Hc Hs IH]; cbn [cstr]; [constructor|].
+  destruct (c =? 0); constructor; assumption.
+Qed.
+
+Lemma map_bytes_cons t c s : map_bytes t (c :: s) = tbl_entry t c ++ map_bytes t s.
+Proof. reflexivity. Qed.
+
+Definition ref_char (c : N) : bool := negb (is_html_meta c) && negb (c =? 59).
+
+Definition html_item (it : bytes) : Prop :=
+  (exists c, it = [c] /\ is_html_meta c = false) \/
+  (exists name v, it = 38 :: name ++ [59] /\ ref_value name = Some v /\ forallb ref_char name = true).
+
+Definition html_item_b (it : bytes) : bool :=
+  match it with
+  | [] => false
+  | c :: rest =>
+    match rest with
+    | [] => negb (is_html_meta c)
+    | _ => (c =? 38) &&
+           match rev rest with
+           | [] => false
+           | z :: rname => (z =? 59) && forallb ref_char (rev rname) &&
+                           match ref_value (rev rname) with Some _ => true | None => false end
+           end
+    end
+  end.
+
+Lemma html_item_b_sound it : html_item_b it = true -> html_item it.
+Proof.
+  unfold html_item_b. destruct it as [|c rest]; [discriminate|].
+  destruct rest as [|d rest'].
+  - intros H. left. exists c. split; [reflexivity|]. now destruct (is_html_meta c).
+  - intros H. apply andb_prop in H. destruct H as [Hc H]. apply N.eqb_eq in Hc. subst c.
+    destruct (rev (d :: rest')) as [|z rname] eqn:E; [discriminate|].
+    apply andb_prop in H. destruct H as [H Hv]. apply andb_prop in H. destruct H as [Hz Hn].
+    apply N.eqb_eq in Hz. subst z.
+    destruct (ref_value (rev rname)) as [v|] eqn:Ev; [|discriminate].
+    right. exists (rev rname), v. repeat split; try assumption.
+    f_equal. rewrite <- (rev_involutive (d :: rest')), E. reflexivity.
+Qed.
+
+Definition html_entry_item_ok (c : N) : bool := (c =? 0) || html_item_b (tbl_entry bm_html_quote c).
+Lemma html_entries_items c : c < 256 -> html_entry_item_ok c = true.
+Proof. apply forallb_bytes. vm_compute. reflexivity. Qed.
+
+Theorem html_quote_items s : bytes_ok s ->
+  exists items, html_quote s = concat items /\ Forall html_item items.
+Proof.
+  intros Hb. exists (map (tbl_entry bm_html_quote) (cstr s)). split; [reflexivity|].
+  pose proof (cstr_bytes_ok s Hb) as Hb'. pose proof (cstr_is_nul_free s) as Hn.
+  induction (cstr s) as [|c l IH]; cbn [map]; [constructor|].
+  inversion Hb' as [|? ? Hc Hl]; inversion Hn as [|? ? Hc0 Hl0]; subst.
+  constructor; [|apply IH; assumption].
+  apply html_item_b_sound. pose proof (html_entries_items c Hc) as H. unfold html_entry_item_ok in H.
+  destruct (c =? 0) eqn:E; [apply N.eqb_eq in E; contradiction|exact H].
+Qed.
+
+Definition is_quote_meta (c : N) : bool := (c =? 60) || (c =? 62) || (c =? 34) || (c =? 39).
+
+Lemma forallb_map_bytes (p : N -> bool) t s : bytes_ok s ->
+  (forall c, c < 256 -> forallb p (tbl_entry t c) = true) -> forallb p (map_bytes t s) = true.
+Proof.
+  intros Hb H. induction Hb as [|c s Hc Hs IH]; [reflexivity|].
+  rewrite map_bytes_cons, forallb_app, (H c Hc), IH. reflexivity.
+Qed.
+
+Theorem html_quote_no_angle_or_quote s : bytes_ok s ->
+  forallb (fun c => negb (is_quote_meta c)) (html_quote s) = true.
+Proof.
+  intros Hb. apply forallb_map_bytes; [apply cstr_bytes_ok, Hb|].
+  apply (forallb_bytes (fun c => forallb (fun x => negb (is_quote_meta x)) (tbl_entry bm_html_quote c))).
+  vm_compute. reflexivity.
+Qed.
+
+Lemma list_eqb_eq a : forall b, list_eqb a b = true -> a = b.
+Proof.
+  induction a as [|x a IH]; intros [|y b] H; cbn in H; try discriminate; [reflexivity|].
+  apply andb_prop in H. destruct H as [H1 H2]. apply N.eqb_eq in H1. subst. f_equal. apply IH, H2.
+Qed.
 
 (* ====================================================================== *)
 (* generic: per-byte table maps without the "every element is a byte" hypothesis *)
@@ -568,11 +670,37 @@ Proof.
   intros x H. apply andb_prop in H. apply H.
 Qed.
 
-(* URL style is reversible: C31's theorem about rfc1738_unescape applies (flag set 3 escapes the percent sign) *)
-Theorem url_reversible s : bytes_ok s ->
-  unescaped_to (rfc1738_unescape (url_quote s ++ [0])) (cstr s) (lenN (url_quote s)).
+(* URL style is reversible: percent-decoding (QuoteModel.pct_decode, the structural RFC 3986 decoder) gives the
+   value back, because flag set 3 escapes the percent sign itself.  (That Squid's own rfc1738_unescape computes
+   this decoding on escaped strings is C31's theorem.) *)
+Definition pct_item_ok (c : N) (e : bytes) : bool :=
+  match e with
+  | [x] => (x =? c) && negb (x =? 37)
+  | [p; h1; h2] => (p =? 37) && match hexval h1, hexval h2 with Some a, Some b => 16 * a + b =? c | _, _ => false end
+  | _ => false
+  end.
+Lemma pct_decode_item_ok c e r : pct_item_ok c e = true -> pct_decode (e ++ r) = option_map (cons c) (pct_decode r).
 Proof.
-  intros Hb. apply (rfc1738_unescape_escape 3 s (url_quote s) Hb); reflexivity.
+  unfold pct_item_ok. destruct e as [|x [|y [|z [|w e]]]]; try discriminate.
+  - intros H. apply andb_prop in H. destruct H as [Hx H37]. apply N.eqb_eq in Hx. subst x.
+    apply Bool.negb_true_iff in H37. cbn [app pct_decode]. rewrite H37. reflexivity.
+  - intros H. apply andb_prop in H. destruct H as [Hp H]. apply N.eqb_eq in Hp. subst x.
+    cbn [app pct_decode]. change (37 =? 37) with true. cbv iota.
+    destruct (hexval y) as [a|]; [|discriminate]. destruct (hexval z) as [b|]; [|discriminate].
+    apply N.eqb_eq in H. subst c. reflexivity.
+Qed.
+Lemma url_entries_ok c : c < 256 -> (c =? 0) || pct_item_ok c (tbl_entry bm_rfc1738_3 c) = true.
+Proof. revert c. apply forallb_bytes. vm_compute. reflexivity. Qed.
+
+Theorem url_reversible s : bytes_ok s -> pct_decode (url_quote s) = Some (cstr s).
+Proof.
+  intros Hb. unfold url_quote, rfc1738_escape_tbl, map_bytes.
+  pose proof (cstr_bytes_ok s Hb) as Hb'. pose proof (cstr_is_nul_free s) as Hn.
+  induction (cstr s) as [|c l IH]; [reflexivity|].
+  inversion Hb' as [|? ? Hc Hl]; inversion Hn as [|? ? Hc0 Hl0]; subst.
+  cbn [map concat]. pose proof (url_entries_ok c Hc) as H.
+  destruct (c =? 0) eqn:E; [apply N.eqb_eq in E; contradiction|]. cbn [orb] in H.
+  rewrite (pct_decode_item_ok c _ _ H), (IH Hl Hl0). reflexivity.
 Qed.
 
 (* ---------- mime-blob style ---------- *)
